@@ -21,7 +21,7 @@ RULE = ('programs of 1-3 nodes; every node carries a combination of option lists
         'value touches or misses (i.e. every generated program except bare declarations); distinct by rendered text')
 SHARDS = {'quick': 16, 'thorough': 16}
 MIN_NONTRIVIAL = {'quick': 2000, 'thorough': 50000}
-REQUIRED_CLASSES = ['staged-base', 'staged-base:inherited-condition-violated-through-another-node', 'edge:int-options-in-another-unit', 'edge:int-option-member', 'edge:int-option-non-member', 'edge:constraint-on-imported-copy', 'edge:import-condition', 'edge:import-format', 'edge:import-options', 'edge:import-remote', 'foreign-workload:C13', 'foreign-workload:C14', 'foreign-workload:C17', 'foreign-workload:C18', 'edge:sliced-injection-into-bounded-array', 'edge:slice-within-bounds', 'edge:slice-outside-bounds', 'expected-accept', 'expected-reject', 'option-per-line', 'option-list-form', 'option-in-other-unit',
+REQUIRED_CLASSES = ['format-on-empty-string-violated', 'staged-base', 'staged-base:inherited-condition-violated-through-another-node', 'edge:int-options-in-another-unit', 'edge:int-option-member', 'edge:int-option-non-member', 'edge:constraint-on-imported-copy', 'edge:import-condition', 'edge:import-format', 'edge:import-options', 'edge:import-remote', 'foreign-workload:C13', 'foreign-workload:C14', 'foreign-workload:C17', 'foreign-workload:C18', 'edge:sliced-injection-into-bounded-array', 'edge:slice-within-bounds', 'edge:slice-outside-bounds', 'expected-accept', 'expected-reject', 'option-per-line', 'option-list-form', 'option-in-other-unit',
                     'option-on', 'option-near', 'option-all-off', 'str-option-member', 'str-option-not-member',
                     'cond-le-on', 'cond-le-near', 'cond-lt-on', 'cond-ge-above', 'cond-eq-near', 'cond-ne-on',
                     'condition-compound', 'condition-constant-in-other-unit', 'bool-condition-satisfied',
